@@ -71,6 +71,12 @@ PROPS = {
         "aspects": ["layout", "outcome", "maxthreads"],
         "assumptions": [],
     },
+    "C11": {
+        "statement": "C11_rendezvous_progress / _all_inside_together / _steps_decrease / _needs_n on the pool model (an assumption about rayon)",
+        "engines": [{"engine": "rendezvous", "args": {}, "quick": {"reps": 5}, "thorough": {"reps": 40}}],
+        "aspects": ["pool"],
+        "assumptions": ["PARTIAL: the pool model (idle workers take any unstarted group; a blocked system keeps its worker) is an assumption about rayon 1.12, not derived from its source; the tie is the complete enumeration of widths 2..16 x pool sizes x modes with real rendezvous runs"],
+    },
     "C12": {
         "statement": "Scenario.C12_thread_local_last (order part); thread placement by the trace model",
         "engines": [plan("tl,plan"), trace("tl,base,kf1", quick=60)],
